@@ -208,9 +208,26 @@ func enumNumberingAgrees(r *core.Run) {
 		if loop == nil {
 			return
 		}
-		isZeroTest := func(c ast.Expr) bool {
+		var isZeroTest func(c ast.Node) bool
+		isZeroTest = func(c ast.Node) bool {
 			hit := false
 			ast.Inspect(c, func(m ast.Node) bool {
+				// a predicate helper of this package that makes the test
+				if call, ok := m.(*ast.CallExpr); ok && !hit {
+					if f := core.CalleeFunc(info, call); f != nil && f.Pkg() == pk.Types {
+						if sig, ok := f.Type().(*types.Signature); ok && sig.Results().Len() == 1 && core.TypeStr(sig.Results().At(0).Type()) == "bool" {
+							core.AllFuncDecls(pk, func(d *ast.FuncDecl) {
+								if info.Defs[d.Name] == types.Object(f) && d.Body != nil && d != fd {
+									for _, st := range d.Body.List {
+										if rs, ok := st.(*ast.ReturnStmt); ok && len(rs.Results) == 1 && isZeroTest(rs.Results[0]) {
+											hit = true
+										}
+									}
+								}
+							})
+						}
+					}
+				}
 				if b, ok := m.(*ast.BinaryExpr); ok && b.Op == token.EQL {
 					for _, side := range []ast.Expr{b.X, b.Y} {
 						e := core.Unparen(side)
@@ -281,6 +298,40 @@ func enumNumberingAgrees(r *core.Run) {
 		}
 	})
 	sort.Strings(order)
+	if len(order) == 1 {
+		// one shared numbering helper: agreement is by construction when both
+		// the descriptor and the in / not_in table are numbered through it
+		var hobj types.Object
+		core.AllFuncDecls(pk, func(fd *ast.FuncDecl) {
+			if core.FuncName(fd) == order[0] {
+				hobj = info.Defs[fd.Name]
+			}
+		})
+		callers := map[string]bool{}
+		core.AllFuncDecls(pk, func(fd *ast.FuncDecl) {
+			if fd.Body == nil {
+				return
+			}
+			ast.Inspect(fd.Body, func(n ast.Node) bool {
+				if c, ok := n.(*ast.CallExpr); ok && hobj != nil {
+					if f := core.CalleeFunc(info, c); f != nil && types.Object(f) == hobj {
+						callers[core.FuncName(fd)] = true
+					}
+				}
+				return true
+			})
+		})
+		if len(callers) >= 2 {
+			var cs []string
+			for c := range callers {
+				cs = append(cs, c)
+			}
+			sort.Strings(cs)
+			o := r.Add("R-PROV/V2s", convRel+" | numbering functions agree", token.NoPos, "one numbering helper "+order[0])
+			o.Auto("one helper numbers the options, used by %s", strings.Join(cs, ", "))
+			return
+		}
+	}
 	if len(order) < 2 {
 		r.Fatal("R-PROV/V2s: expected the two numbering functions (visitEnumNode, enumTypeRef), found %v", order)
 		return
